@@ -1,6 +1,7 @@
 """C14 - sorting only permutes the content list: write-set, ordered-guard, refill, comparator key order.
-Does NOT decide idempotence / independence of the initial order (they need Ord for Element to be a total order, a statement
-about run-time values; it is not: a2 < a10 < a1b < a2 - recorded in DESIGN.md, no static rule claims to detect it)."""
+Idempotence / independence of the initial order need Ord for Element to be a total order; C14-SIB-total decides the structural
+part: the comparison applied never depends on a predicate relating both operands (that construct made a2 < a10 < a1b < a2 on the
+pinned tree; repaired)."""
 from ir import Program, callee_of, callee_generic, has_field
 from flow import origins, is_local_op, call_matches, must_pass, source_names, strict_source_roots
 import events as E
@@ -8,6 +9,164 @@ from pairing import calls, dominated_by
 from framework import Check
 import c11
 from locks import BodyLocks
+
+
+def total_order_rules(C, P):
+    """C14-SIB-total: structural conditions under which `<Element as Ord>::cmp` is a lexicographic chain of key comparisons
+    (hence a total preorder): which comparison is applied may depend on each operand alone, never on a predicate that
+    relates the two operands; and a stage whose key is optional orders the mixed cases instead of skipping the stage."""
+    from ir import rv_operands
+    from flow import const_val, defs_of
+    R = 'C14-SIB-total'
+    ec = P.get('<Element as Ord>::cmp')
+    # ---- which side does every local depend on (data dependence only) ----
+    import re as _re
+    side = {1: {'S'}, 2: {'O'}}
+    fside = {}          # (tuple local, '.i') -> sides of that component
+
+    def pside(o):
+        """sides of an operand / place; tuple components are tracked separately"""
+        if not is_local_op(o):
+            return set()
+        p = o.get('p') or []
+        if p and _re.match(r'^\.\d+$', p[0]) and (o['l'], p[0]) in fside:
+            return fside[(o['l'], p[0])]
+        return side.get(o['l'], set())
+    changed = True
+    while changed:
+        changed = False
+        for pos, st in ec.iter_stmts():
+            if st['k'] != 'assign':
+                continue
+            rv = st['rv']
+            ops = [rv['pl']] if rv['k'] in ('discr', 'ref', 'rawptr') and 'pl' in rv else list(rv_operands(rv))
+            src = set()
+            for o in ops:
+                src |= pside(o)
+            d = st['dst']['l']
+            if rv['k'] in ('agg', 'tuple') or (rv['k'] == 'agg' and not rv.get('adt')):
+                for i, o in enumerate(rv.get('ops', [])):
+                    k = (d, '.%d' % i)
+                    ps = pside(o)
+                    if not ps <= fside.get(k, set()):
+                        fside.setdefault(k, set()).update(ps); changed = True
+            if not src <= side.get(d, set()):
+                side.setdefault(d, set()).update(src); changed = True
+        for pos, t in ec.iter_calls():
+            src = set()
+            for a_ in t['args']:
+                src |= pside(a_)
+            d = t['dst']['l']
+            if not src <= side.get(d, set()):
+                side.setdefault(d, set()).update(src); changed = True
+    def is_stage_result(l, depth=6):
+        """l is (a copy / discriminant / ==Equal test of) the result of a cmp call"""
+        seen = set(); work = [l]
+        while work and depth > 0:
+            depth -= 1
+            x = work.pop()
+            if x in seen:
+                continue
+            seen.add(x)
+            for q, st in defs_of(ec, x):
+                if st['k'] == 'call':
+                    if call_matches(st, r'Ord>?::cmp$|::cmp$|partial_cmp$|Ordering::then'):
+                        return True
+                    if call_matches(st, r'PartialEq.*::(ne|eq)$') and any('Ordering' in (ec.local_ty(a['l']) or '') for a in st['args'] if is_local_op(a)):
+                        work.extend(a['l'] for a in st['args'] if is_local_op(a))
+                elif st['k'] == 'assign':
+                    rv = st['rv']
+                    for o in ([rv['pl']] if 'pl' in rv else list(rv_operands(rv))):
+                        if is_local_op(o):
+                            work.append(o['l'])
+        return False
+    n_sw = 0
+    bad = []
+    for pos, t in ec.iter_terms():
+        if t['k'] != 'switch' or not is_local_op(t['d']):
+            continue
+        sd = pside(t['d'])
+        if sd == {'S', 'O'}:
+            n_sw += 1
+            if not is_stage_result(t['d']['l']):
+                bad.append(pos)
+    for i, pos in enumerate(bad):
+        C.fail(R, 'Element::cmp|stage-selected-by-pair-predicate#%d' % i, 'Element::cmp branches on a predicate that relates BOTH operands and is not the Equal-test of a stage result (e.g. `base1 == base2` choosing between numeric and textual comparison): '
+               'the comparison applied to a pair depends on the pair, so the relation is not a lexicographic order of per-element keys and need not be transitive (a2 < a10 < a1b < a2); the sorted result then depends on the initial order and a second sort can change it', ec.where(pos))
+    if not bad:
+        C.ok(R, 'Element::cmp|no-pair-predicates', '%d switches on values derived from both operands, all of them Equal-tests of a stage result' % n_sw,
+             sample={'fn': '<Element as Ord>::cmp', 'mixed_switches': n_sw, 'all_are_stage_results': True})
+    # ---- optional keys: the mixed cases are ordered, not skipped ----
+    # switches on the discriminant of an Option that depends on one side only
+    def opt_switches():
+        out = []
+        for pos, t in ec.iter_terms():
+            if t['k'] != 'switch' or not is_local_op(t['d']):
+                continue
+            for q, st in defs_of(ec, t['d']['l']):
+                if st['k'] == 'assign' and st['rv']['k'] == 'discr':
+                    base = st['rv']['pl']
+                    ty = ec.local_ty(base['l']) or ''
+                    sd = pside(base)
+                    if 'Option<' in ty and len(sd) == 1:
+                        ts = dict(t['ts'])
+                        # a pattern test binds the payload on its Some edge; the switches of a drop ladder do not read it
+                        some_t = ts.get('1', t['else'])
+                        binds = False
+                        blk = some_t
+                        for _ in range(3):
+                            for q2, st2 in ((p3, s3) for p3, s3 in ec.iter_stmts() if p3[0] == blk):
+                                if st2['k'] == 'assign':
+                                    rv2 = st2['rv']
+                                    for o2 in ([rv2['pl']] if 'pl' in rv2 else list(rv_operands(rv2))):
+                                        if is_local_op(o2) and o2['l'] == base['l'] and any('Some' in str(pp) for pp in o2.get('p', [])):
+                                            binds = True
+                            t3 = ec.blocks[blk]['term']
+                            if t3['k'] == 'goto':
+                                blk = t3['t']
+                            elif t3['k'] == 'switch' and is_local_op(t3['d']):
+                                # (Some, Some) patterns test the second component before binding either
+                                blk = dict(t3['ts']).get('1', t3['else'])
+                            else:
+                                break
+                        out.append({'pos': pos, 'side': next(iter(sd)), 'base': (base['l'], tuple(base['p'])), 'none': ts.get('0', t['else']), 'some': ts.get('1', t['else']), 'binds': binds})
+        return out
+    sws = opt_switches()
+    def falls_through(start_block):
+        """from this block, is a later stage reachable (= a call that consumes a value of either operand) before the function returns?"""
+        for p2 in ec.reach_from((start_block, 0), include_start=True):
+            bi, i = p2
+            if i == ec.nstmts(bi):
+                t2 = ec.blocks[bi]['term']
+                if t2['k'] == 'call' and any(pside(a) for a in t2['args']):
+                    return True
+        return False
+    stages = 0
+    stage_info = []
+    for x in sws:
+        if x['side'] != 'S' or not x['binds']:
+            continue
+        # the partner test nested in the Some region
+        region = {p2[0] for p2 in ec.reach_from((x['some'], 0), include_start=True)}
+        ys = [y for y in sws if y['side'] == 'O' and y['binds'] and y['pos'][0] in region and y['pos'][0] != x['pos'][0]]
+        if not ys:
+            continue
+        # nearest one: the first O-side switch reachable without passing another S-side switch
+        y = min(ys, key=lambda y: y['pos'][0])
+        if any(o['side'] == 'S' and o is not x and o['pos'][0] in region and o['pos'][0] < y['pos'][0] for o in sws):
+            continue
+        stages += 1
+        key = 'Element::cmp|optional-key-stage#%d' % stages
+        ok1 = not falls_through(y['none'])
+        # the None edge of x: a sibling test of the same O-side value whose Some edge does not fall through
+        nregion = {p2[0] for p2 in ec.reach_from((x['none'], 0), include_start=True)}
+        sib = [z for z in sws if z['side'] == 'O' and z['base'] == y['base'] and z['pos'][0] in nregion and z['pos'][0] != y['pos'][0]]
+        ok2 = bool(sib) and not falls_through(sib[0]['some'])
+        # evidence only: a stage that skips the mixed cases is a total order only if the later stages agree with it; on this tree
+        # they do (both elements start with the same key element, see DESIGN.md 11.2), so this is not a verdict
+        stage_info.append({'at': ec.where(x['pos']), 'some_none_ordered': ok1, 'none_some_ordered': ok2})
+    C.extra['optional_key_stages'] = stage_info
+    C.ok(R, 'Element::cmp|optional-key-stages-enumerated', '%d stages with an optional key' % stages)
 
 
 def run(ctx):
@@ -170,5 +329,7 @@ def run(ctx):
     # recursion into children happens on both branches
     rs = calls(sr, r'impl Element>::sort$')
     C.check(len(rs) == 2, 'C14-FLOW-refill', 'descends-into-children-on-both-branches', 'sort no longer descends into the child elements on both the sorting and the non-sorting branch (%d calls)' % len(rs))
+    C.rule('C14-SIB-total', 'Element::cmp is a lexicographic chain of per-element key comparisons: no branch on a predicate relating both operands other than the Equal-test of a stage result (stages with optional keys are enumerated as evidence)')
+    total_order_rules(C, P)
     return C.finish('Narrow structural clauses: sorting only permutes the content list (write-set), never reorders ordered types, re-inserts exactly the handles it removed, compares specification position first. '
                     'Idempotence and order-independence are NOT decided.')
